@@ -131,6 +131,7 @@ static int in_kind;
 static unsigned char *in_data;
 static size_t in_len;
 static int tun_skipped;
+static int fd_offered, fd_consumed;   /* a descriptor was reported readable by select / was then read */
 static long sel_to = -1;
 static int sel_tun, sel_dns;
 static sem_t sem_main, sem_worker;
@@ -194,8 +195,8 @@ int verif_select(int nfds, fd_set *r, fd_set *w, fd_set *e, struct timeval *tv)
 	had_dns = FD_ISSET(DNS_FD, r);
 	FD_ZERO(r);
 	switch (in_kind) {
-	case IN_DNS: if (had_dns) { FD_SET(DNS_FD, r); n = 1; } break;
-	case IN_TUN: if (had_tun) { FD_SET(TUN_FD, r); n = 1; } else tun_skipped = 1; break;
+	case IN_DNS: if (had_dns) { FD_SET(DNS_FD, r); n = 1; fd_offered = 1; } break;
+	case IN_TUN: if (had_tun) { FD_SET(TUN_FD, r); n = 1; fd_offered = 1; } else tun_skipped = 1; break;
 	case IN_KILL: running = 0; worker_finish();
 	default: n = 0;
 	}
@@ -210,6 +211,7 @@ ssize_t verif_recvfrom(int fd, void *buf, size_t len, int flags, struct sockaddr
 	size_t n;
 	(void) flags;
 	if (fd != DNS_FD || !in_data) return -1;
+	fd_consumed = 1;
 	n = in_len < len ? in_len : len;
 	memcpy(buf, in_data, n);
 	if (from && fromlen && *fromlen >= (socklen_t) nameserv_len && nameserv_len > 0) {
@@ -229,6 +231,7 @@ ssize_t verif_read(int fd, void *buf, size_t len)
 	size_t n;
 	if (fd != TUN_FD) return read(fd, buf, len);
 	if (!in_data) return -1;
+	fd_consumed = 1;
 	n = in_len < len ? in_len : len;
 	memcpy(buf, in_data, n);
 	return (ssize_t) n;
@@ -418,8 +421,11 @@ static void feed(int kind, unsigned char *data, size_t len)
 		ev_hex((unsigned char *) rbuf, rv > 0 ? (size_t) rv : 0);
 	}
 	tun_skipped = 0;
+	fd_offered = fd_consumed = 0;
 	sem_post(&sem_worker);
 	sem_wait(&sem_main);
+	/* select() said "readable" and the program came back to select() without reading: a real select() would return again at once (busy loop) */
+	if (fd_offered && !fd_consumed && worker_alive && worker_parked) ev_begin(kind == IN_TUN ? "tunleft" : "dnsleft");
 	if (!worker_alive) pthread_join(worker, NULL);
 	in_data = NULL;
 	finish_line();
